@@ -404,6 +404,54 @@ def catalogue():
     add("solid_harmonics", ["solid_harmonics"], hargs, lambda a: ut.solid_harmonics(3, a["sph"]), family="harm")
     add("convert_cart_to_sph", ["convert_cart_to_sph"], hargs, lambda a: [ut.convert_cart_to_sph(a["cart"]), ut.convert_cart_to_sph(a["cart"], a["c"])], family="harm")
     add("generate_orders_horton_order", ["generate_orders_horton_order"], dict, lambda a: [ut.generate_orders_horton_order(2, t) for t in ("cartesian", "radial", "pure", "pure-radial")])
+    add("convert_derivative_from_spherical_to_cartesian", ["convert_derivative_from_spherical_to_cartesian"],
+        lambda: {"d": np.array([0.3, -0.2, 0.7]), "s": np.array([1.3, 0.4, 1.1])},
+        lambda a: ut.convert_derivative_from_spherical_to_cartesian(a["d"][0], a["d"][1], a["d"][2], a["s"][0], a["s"][1], a["s"][2]))
+
+    # ---- the scale setters of the b-scaled maps, reassignment of points / weights, files
+    for cname in ("LinearInfiniteRTransform", "ExpRTransform", "PowerRTransform"):
+        add(f"{cname}.set_maximum_parameter_b", [f"{cname}.set_maximum_parameter_b"],
+            lambda cname=cname: {"tf": getattr(rt, cname)(0.2, 9.0), "x": np.array([0.0, 1.0, 2.5, 4.0])},
+            lambda a: [a["tf"].set_maximum_parameter_b(a["x"]), float(a["tf"].b), a["tf"].transform(a["x"])][1:])
+
+    def sargs():
+        a = gargs()
+        a["new_points"] = a["points"][::-1] * 0.5
+        a["new_weights"] = a["weights"][::-1] * 2.0
+        return a
+
+    def assign(a):
+        g = Grid(a["points"], a["weights"])
+        g.get_localgrid(a["c"], 0.9)
+        g.points = a["new_points"]
+        g.weights = a["new_weights"]
+        return [g.integrate(a["f"]), g.get_localgrid(a["c"], 0.9).indices]
+
+    add("Grid.points/weights setters", ["Grid.points", "Grid.weights"], sargs, assign)
+
+    def cube_args():
+        a = cargs()
+        a["pseudo"] = np.array([8.0, 1.0])
+        return a
+
+    def write_cube(a):
+        import os
+        import tempfile
+
+        d = tempfile.mkdtemp(prefix="c20cube")
+        try:
+            fn = os.path.join(d, "t.cube")
+            a["grid"].generate_cube(fn, a["values"], a["atcoords"], a["atnums"], a["pseudo"])
+            g2, data = UniformGrid.from_cube(fn, return_data=True)
+            npz = os.path.join(d, "g.npz")
+            a["grid"].save(npz)
+            return [g2.points, data["data"], data["atcorenums"]]
+        finally:
+            import shutil
+
+            shutil.rmtree(d, ignore_errors=True)
+
+    add("UniformGrid.generate_cube/from_cube/save", ["UniformGrid.generate_cube", "UniformGrid.from_cube", "Grid.save", "_HyperRectangleGrid"], cube_args, write_cube)
     return S
 
 
@@ -652,6 +700,173 @@ def coverage(specs):
     return total, with_data, sorted(missing)
 
 
+# ------------------------------------------------------------------------------ calls that raise
+class _Boom(Exception):
+    pass
+
+
+def raising_catalogue():
+    """(name, build, call): public operations driven into a documented error -- a rejected argument, a solver that
+    gives up, a user callback that raises part-way.  "After any public operation returns (or raises)" the caller's
+    arrays, lists and dictionaries must be bit-for-bit unchanged."""
+    import grid.rtransform as rt
+    from grid.angular import AngularGrid
+    from grid.atomgrid import AtomGrid
+    from grid.basegrid import Grid, OneDGrid
+    from grid.becke import BeckeWeights
+    from grid.coulomb import coulomb_potential
+    from grid.cubic import UniformGrid
+    from grid.molgrid import MolGrid
+    from grid.ngrid import MultiDomainGrid
+    from grid.ode import solve_ode_bvp, solve_ode_ivp
+    from grid.periodicgrid import PeriodicGrid
+    from grid.poisson import solve_poisson_bvp, solve_poisson_ivp
+
+    rng = lambda: np.random.default_rng(2020)
+    R = []
+
+    def gargs():
+        p = rng().uniform(-1, 1, (9, 3))
+        return {"points": p, "weights": rng().uniform(0.1, 1, 9), "f": np.cos(p[:, 0]), "short": np.ones(5),
+                "centers": np.array([[0.1, 0.2, 0.3], [0.0, 0.0, 0.0]]), "c2": np.array([[0.1, 0.2]]), "idx": np.array([0, 3, 30])}
+
+    R.append(("Grid.moments[wrong-length]", gargs, lambda a: Grid(a["points"], a["weights"]).moments(2, a["centers"], a["short"])))
+    R.append(("Grid.moments[unknown-type]", gargs, lambda a: Grid(a["points"], a["weights"]).moments(2, a["centers"], a["f"], "nonsense")))
+    R.append(("Grid.moments[centre-dimension]", gargs, lambda a: Grid(a["points"], a["weights"]).moments(2, a["c2"], a["f"])))
+    R.append(("Grid.moments[pure-radial-order-0]", gargs, lambda a: Grid(a["points"], a["weights"]).moments(0, a["centers"], a["f"], "pure-radial")))
+    R.append(("Grid.integrate[wrong-length]", gargs, lambda a: Grid(a["points"], a["weights"]).integrate(a["f"], a["short"])))
+    R.append(("Grid()[length-mismatch]", gargs, lambda a: Grid(a["points"], a["short"])))
+    R.append(("Grid.__getitem__[out-of-range]", gargs, lambda a: Grid(a["points"], a["weights"])[a["idx"]]))
+    R.append(("Grid.get_localgrid[negative-radius]", gargs, lambda a: Grid(a["points"], a["weights"]).get_localgrid(a["centers"][0], -1.0)))
+    R.append(("OneDGrid()[outside-domain]", gargs, lambda a: OneDGrid(np.sort(a["points"][:, 0]) * 5, a["weights"], (-1, 1))))
+
+    def aargs():
+        return {"rg": _rgrid(6), "degrees": [3, 5, 1000, 3, 3, 3], "short": [3, 5], "sizes": np.array([6, 14, 26, 99999, 6, 6]),
+                "center": np.array([0.1, 0.2, 0.3]), "c2": np.array([0.1, 0.2]), "r_sectors": [0.5, 1.0], "d_sectors": [3, 5],
+                "f": np.ones(5)}
+
+    R.append(("AtomGrid()[degree-above-maximum]", aargs, lambda a: AtomGrid(a["rg"], degrees=a["degrees"], center=a["center"])))
+    R.append(("AtomGrid()[wrong-number-of-degrees]", aargs, lambda a: AtomGrid(a["rg"], degrees=a["short"], center=a["center"])))
+    R.append(("AtomGrid()[size-above-maximum]", aargs, lambda a: AtomGrid(a["rg"], degrees=None, sizes=a["sizes"], center=a["center"])))
+    R.append(("AtomGrid()[centre-shape]", aargs, lambda a: AtomGrid(a["rg"], degrees=[3], center=a["c2"])))
+    R.append(("AtomGrid.from_pruned[sector-mismatch]", aargs, lambda a: AtomGrid.from_pruned(a["rg"], 1.0, r_sectors=a["r_sectors"], d_sectors=a["d_sectors"], center=a["center"])))
+    R.append(("AtomGrid.integrate_angular_coordinates[wrong-length]", aargs, lambda a: AtomGrid(a["rg"], degrees=[3]).integrate_angular_coordinates(a["f"])))
+    R.append(("AtomGrid.spherical_average[wrong-length]", aargs, lambda a: AtomGrid(a["rg"], degrees=[3]).spherical_average(a["f"])))
+    R.append(("AtomGrid.interpolate[wrong-length]", aargs, lambda a: AtomGrid(a["rg"], degrees=[3]).interpolate(a["f"])))
+    R.append(("AngularGrid.convert_angular_sizes_to_degrees[above-maximum]", aargs, lambda a: AngularGrid.convert_angular_sizes_to_degrees(a["sizes"], "lebedev")))
+
+    def margs():
+        return {"atnums": np.array([1, 8]), "atcoords": np.array([[0.0, 0.0, -0.7], [0.0, 0.1, 0.7]]), "rg": _rgrid(6),
+                "three": np.array([[0.0, 0.0, 0.0], [1.0, 0, 0], [0, 1.0, 0]]), "aim": np.ones(7), "pts": rng().uniform(-1, 1, (10, 3)),
+                "pt_ind": [0, 5, 10], "select": [0, 1, 1], "sectors": [[0.5, 1.0], [0.5]], "degs": [[3, 5, 7], [3, 5, 7]]}
+
+    R.append(("MolGrid.from_size[coordinate-count]", margs, lambda a: MolGrid.from_size(a["atnums"], a["three"], 26, rgrid=a["rg"], aim_weights=BeckeWeights())))
+    R.append(("MolGrid()[aim-weights-length]", margs, lambda a: MolGrid(a["atnums"], [_atom((0, 0, -0.7), 6, 3), _atom((0, 0.1, 0.7), 6, 3)], a["aim"])))
+    R.append(("MolGrid.from_pruned[sector-mismatch]", margs, lambda a: MolGrid.from_pruned(a["atnums"], a["atcoords"], 1.0, a["sectors"], a["rg"], BeckeWeights(), d_sectors=a["degs"])))
+    R.append(("MolGrid.get_atomic_grid[out-of-range]", margs, lambda a: _mol(False).get_atomic_grid(5)))
+    R.append(("BeckeWeights.generate_weights[select-mismatch]", margs, lambda a: BeckeWeights().generate_weights(a["pts"], a["atcoords"], a["atnums"], select=a["select"], pt_ind=a["pt_ind"])))
+    R.append(("BeckeWeights.compute_weights[select-mismatch]", margs, lambda a: BeckeWeights().compute_weights(a["pts"], a["atcoords"], a["atnums"], select=a["select"], pt_ind=a["pt_ind"])))
+    R.append(("solve_poisson_bvp[molgrid-not-stored]", margs, lambda a: solve_poisson_bvp(_mol(False), np.ones(_mol(False).size), rt.InverseRTransform(rt.BeckeRTransform(1e-4, 1.5)))))
+
+    def cargs():
+        return {"points": rng().uniform(-1, 1, (6, 3)), "cs": np.array([[0.0, 0, 0], [0, 0, 1.0]]), "co": np.array([1.0, 0.5]), "al": np.array([1.0, 2.0]),
+                "bad": np.array([1.0, -2.0]), "cp": np.array([[0.0, 0.5, 0]]), "three": np.array([1.0, 2.0, 3.0])}
+
+    R.append(("coulomb_potential[partial-p]", cargs, lambda a: coulomb_potential(a["points"], a["cs"], a["co"], a["al"], centers_p=a["cp"])))
+    R.append(("coulomb_potential[length-mismatch]", cargs, lambda a: coulomb_potential(a["points"], a["cs"], a["co"], a["three"])))
+    R.append(("coulomb_potential[negative-exponent]", cargs, lambda a: coulomb_potential(a["points"], a["cs"], a["co"], a["bad"])))
+
+    def uargs():
+        return {"origin": np.array([-1.0, -1.0, -1.0]), "axes": np.diag([0.3, 0.3, 0.3]), "shape": np.array([7, 7, 7]), "vals": np.ones(10),
+                "q": np.array([[0.1, 0.2, 0.3]]), "skew": np.array([[0.3, 0.1, 0], [0, 0.3, 0], [0, 0, 0.3]]), "sing": np.zeros((3, 3)),
+                "o2": np.array([0.0, 0.0]), "a2": np.diag([0.5, 0.5]), "s2": np.array([3, 3])}
+
+    R.append(("UniformGrid.interpolate[wrong-length]", uargs, lambda a: UniformGrid(a["origin"], a["axes"], a["shape"]).interpolate(a["q"], a["vals"])))
+    R.append(("UniformGrid.interpolate[two-dimensional]", uargs, lambda a: UniformGrid(a["o2"], a["a2"], a["s2"]).interpolate(a["q"][:, :2], np.ones(9))))
+    R.append(("UniformGrid.closest_point[skewed]", uargs, lambda a: UniformGrid(a["origin"], a["skew"], a["shape"]).closest_point(a["q"][0])))
+    R.append(("UniformGrid()[unknown-weight]", uargs, lambda a: UniformGrid(a["origin"], a["axes"], a["shape"], weight="nonsense")))
+    R.append(("UniformGrid()[singular-axes]", uargs, lambda a: UniformGrid(a["origin"], a["sing"], a["shape"])))
+
+    def pargs():
+        return {"points": rng().uniform(0, 1, (7, 3)), "weights": rng().uniform(0.1, 1, 7), "rv": np.diag([1.0, 1.2, 0.9]),
+                "sing": np.array([[1.0, 0, 0], [2.0, 0, 0]]), "four": np.ones((4, 3)), "c": np.array([0.2, 0.3, 0.4])}
+
+    R.append(("PeriodicGrid()[singular-lattice]", pargs, lambda a: PeriodicGrid(a["points"], a["weights"], a["sing"])))
+    R.append(("PeriodicGrid()[too-many-vectors]", pargs, lambda a: PeriodicGrid(a["points"], a["weights"], a["four"])))
+    R.append(("PeriodicGrid.get_localgrid[negative-radius]", pargs, lambda a: PeriodicGrid(a["points"], a["weights"], a["rv"]).get_localgrid(a["c"], -0.5)))
+    R.append(("PeriodicGrid.get_localgrid[infinite-radius]", pargs, lambda a: PeriodicGrid(a["points"], a["weights"], a["rv"]).get_localgrid(a["c"], np.inf)))
+
+    def oargs():
+        return {"x_span": [0.0, 2.0], "mesh": np.linspace(0.0, 2.0, 12), "coeffs": [1.0, 0.5, 2.0], "y0": [1.0, -0.5], "y0_short": [1.0],
+                "bd": [[0, 0, 1.0], [1, 0, 0.3]], "bd_short": [[0, 0, 1.0]], "far": [5.0, 9.0], "params": {"tol": 1e-12, "max_nodes": 14}}
+
+    fx = lambda x: np.cos(3 * np.asarray(x, dtype=float))
+    R.append(("solve_ode_ivp[wrong-number-of-initial-values]", oargs, lambda a: solve_ode_ivp(a["x_span"], fx, a["coeffs"], a["y0_short"])))
+    R.append(("solve_ode_ivp[span-outside-domain]", oargs, lambda a: solve_ode_ivp(a["far"], fx, a["coeffs"], a["y0"], transform=rt.BeckeRTransform(0.1, 1.5))))
+    R.append(("solve_ode_bvp[wrong-number-of-conditions]", oargs, lambda a: solve_ode_bvp(a["mesh"], fx, a["coeffs"], a["bd_short"])))
+    R.append(("solve_ode_bvp[gives-up]", oargs, lambda a: solve_ode_bvp(a["mesh"], lambda x: 1e3 * np.sin(40 * np.asarray(x)), [50.0, 0.0, 1.0], a["bd"], **a["params"])))
+
+    def cbargs():
+        return {"x_span": [0.0, 2.0], "mesh": np.linspace(0.0, 2.0, 12), "coeffs": [1.0, 0.5, 2.0], "y0": np.array([1.0, -0.5]),
+                "bd": [[0, 0, 1.0], [1, 0, 0.3]], "w": rng().uniform(0.1, 1, 5), "p": rng().uniform(-1, 1, 5), "count": [0]}
+
+    def boom_after(n, value):
+        def f(*args, _c=[0]):
+            _c[0] += 1
+            if _c[0] > n:
+                raise _Boom("user callback failed")
+            return value(*args)
+        return f
+
+    R.append(("solve_ode_ivp[rhs-raises]", cbargs, lambda a: solve_ode_ivp(a["x_span"], boom_after(3, lambda x: np.cos(np.asarray(x, dtype=float))), a["coeffs"], a["y0"])))
+    R.append(("solve_ode_bvp[rhs-raises]", cbargs, lambda a: solve_ode_bvp(a["mesh"], boom_after(2, lambda x: np.cos(np.asarray(x, dtype=float))), a["coeffs"], a["bd"])))
+    R.append(("solve_ode_ivp[coefficient-raises]", cbargs, lambda a: solve_ode_ivp(a["x_span"], lambda x: np.cos(np.asarray(x, dtype=float)),
+                                                                                   [1.0, boom_after(3, lambda x: 0.5 + 0 * np.asarray(x, dtype=float)), 2.0], a["y0"])))
+    R.append(("MultiDomainGrid.integrate[integrand-raises]", cbargs,
+              lambda a: MultiDomainGrid([Grid(a["p"], a["w"]), Grid(a["p"], a["w"])]).integrate(boom_after(7, lambda x, y: x * y), non_vectorized=True)))
+    R.append(("MultiDomainGrid.integrate[vectorised-integrand-raises]", cbargs,
+              lambda a: MultiDomainGrid([Grid(a["p"], a["w"]), Grid(a["p"], a["w"])]).integrate(boom_after(2, lambda x, y: x * y))))
+    return R
+
+
+def _raise_job(arg):
+    idx, pattern, seed = arg
+    name, build, call = raising_catalogue()[idx]
+    res = WorkerResult(section="raises")
+    case = {"call": name, "pattern": pattern, "raises": True}
+    with warnings.catch_warnings():
+        warnings.simplefilter("ignore")
+        with np.errstate(all="ignore"):
+            args = build()
+            if pattern == "readonly":
+                for v in args.values():
+                    set_readonly(v)
+            before = {k: snap(v) for k, v in args.items()}
+            np.random.seed(0)
+            res.count()
+            raised = None
+            try:
+                call(args)
+            except BaseException as exc:  # noqa: BLE001
+                if isinstance(exc, (KeyboardInterrupt, lattice.CaseTimeout)):
+                    raise
+                raised = exc
+            after = {k: snap(v) for k, v in args.items()}
+    if raised is None:
+        res.note(f"observation (not counted): {name} did not raise")
+    else:
+        res.nontrivial()
+        msg = str(raised)
+        if pattern == "readonly" and ("read-only" in msg or "readonly" in msg or "not writeable" in msg):
+            res.violation(f"{name}:readonly:read-only-error", f"{name} tried to write into a read-only argument before failing: {msg[:160]}", case)
+    changed = [k for k in before if before[k] != after[k]]
+    if changed:
+        res.violation(f"{name}:argument-modified-before-raising:{'+'.join(sorted(changed))}",
+                      f"{name} ({pattern}) {'raised ' + type(raised).__name__ if raised is not None else 'returned'} and left its "
+                      f"argument(s) {sorted(changed)} modified", case)
+    return res.as_dict()
+
+
 def run(ctx):
     specs = catalogue()
     idx = [i for i, s in enumerate(specs)]
@@ -677,6 +892,9 @@ def run(ctx):
                    if len({a, b, c}) >= 2]
     for res in lattice.pmap(_chain_job, chains, ctx.workers, chunksize=8):
         ctx.merge(res)
+    rjobs = [(i, pat, ctx.seed) for i in range(len(raising_catalogue())) for pat in ("fresh", "readonly")]
+    for res in lattice.pmap(_raise_job, rjobs, ctx.workers, chunksize=4):
+        ctx.merge(res)
     total, with_data, missing = coverage(specs)
     ctx.cov["catalogue"] = {"specs": len(specs), "public_callables": total, "taking_arrays_lists_dicts_callbacks": with_data,
                             "not_covered": missing, "chains": len(chains), "families": {k: len(v) for k, v in fams.items()}}
@@ -684,6 +902,9 @@ def run(ctx):
 
 
 def replay(ctx, case):
+    if case.get("raises"):
+        rn = [r[0] for r in raising_catalogue()]
+        return ctx.merge(_raise_job((rn.index(case["call"]), case["pattern"], ctx.seed)))
     specs = catalogue()
     names = [s.name for s in specs]
     if "family" in case:
